@@ -78,6 +78,14 @@ def gen_cases(tier, seed):
         add(variant, 'isr', f'{s1},{s1}', 1, subtract_gs=False, cost=10)
         add(variant, 'precursor', f'{s1},{s1}', 2, cost=30)
         add(variant, 'table', '', 0, cost=1)
+    # third excitation class against the first (orthogonalisation against every
+    # lower class)
+    for variant in ('ip', 'ea'):
+        s1, s2, s3 = spaces_upto(variant, 3)
+        add(variant, 'isr', f'{s1},{s3}', 1, cost=150, nclasses=3,
+            dims=[3, 2] if variant == 'ip' else [2, 3])
+        add(variant, 'isr', f'{s3},{s1}', 1, cost=150, nclasses=3,
+            dims=[3, 2] if variant == 'ip' else [2, 3])
     # both subtract_gs values on one instance, in both orders
     for variant, o in (('pp', 2), ('ip', 2), ('ea', 1), ('ip', 0)):
         s1, s2 = spaces_upto(variant, 2)
@@ -210,7 +218,8 @@ def run_case(case, res):
     if kind == 'table':
         return run_table(case, res, sm, variant)
     spI, spJ = case['block'].split(',')
-    ref, I = build_reference(case, max(order, case.get('adc_order', 0)))
+    ref, I = build_reference(case, max(order, case.get('adc_order', 0)),
+                             nclasses=case.get('nclasses', 2))
     if ref is None:
         res.skip('no usable model')
         return
